@@ -20,8 +20,8 @@ PROPS = {
     'C01': dict(
         level='model_checking', design_ref='5/C01', oracle='C01',
         technique='explicit-state exploration of the real back-ends (BFS over events, DFS over guard valuations) + reference-model conformance',
-        quick=[S('flat'), S('hier2'), S('ortho'), S('hier3'), S('wide', cfgs=['b', 'bc', 'b11', 'm', 'mc'])],
-        thorough=[S('flat'), S('hier2'), S('ortho'), S('hier3'), S('entry'), S('histS'), S('wide')],
+        quick=[S('flat'), S('hier2'), S('ortho'), S('hier3'), S('hier4'), S('wide', cfgs=['b', 'bc', 'b11', 'm', 'mc'])],
+        thorough=[S('flat'), S('hier2'), S('ortho'), S('hier3'), S('hier4'), S('entry'), S('histS'), S('wide')],
         rule='every reachable active configuration x every event type x every valuation of the guards consulted; '
              'an execution is non-trivial when at least one guard or action ran',
     ),
@@ -36,16 +36,16 @@ PROPS = {
     'C06': dict(
         level='model_checking', design_ref='5/C06', oracle='C06',
         technique='explicit-state exploration of the real back-ends + reference-model conformance on per-region order, result code and no_transition',
-        quick=[S('flat'), S('ortho'), S('hier2'), S('hier3'), S('wide', cfgs=['b', 'bc', 'b11', 'm', 'mc'])],
-        thorough=[S('flat'), S('ortho'), S('hier2'), S('hier3'), S('entry'), S('wide')],
+        quick=[S('flat'), S('ortho'), S('hier2'), S('hier3'), S('hier4'), S('wide', cfgs=['b', 'bc', 'b11', 'm', 'mc'])],
+        thorough=[S('flat'), S('ortho'), S('hier2'), S('hier3'), S('hier4'), S('entry'), S('wide')],
         rule='every reachable configuration x event x guard valuation, calls from quiescent non-blocked machines; '
              'non-trivial when a guard, action or no_transition ran',
     ),
     'C07': dict(
         level='model_checking', design_ref='5/C07', oracle='C07',
         technique='explicit-state exploration of the real back-ends + reference-model conformance on bubbling and cascades',
-        quick=[S('hier2'), S('hier3'), S('entry')],
-        thorough=[S('hier2'), S('hier3'), S('entry'), S('histA'), S('wide')],
+        quick=[S('hier2'), S('hier3'), S('hier4'), S('entry')],
+        thorough=[S('hier2'), S('hier3'), S('hier4'), S('entry'), S('histA'), S('wide')],
         rule='every reachable configuration of the nested machines x event x guard valuation; non-trivial when any callback ran',
     ),
     'C03': dict(
@@ -55,7 +55,7 @@ PROPS = {
               [S('orthoA', cfgs=['b', 'b11', 'm', 'mc'], introspect=True)],     # a root machine with a history policy: stop / start again
         thorough=[S(z, ops=pe_all(z) + ['eq:1', 'eq:2', 'xq', 'xs'], introspect=True) for z in ('ortho', 'hier2', 'hier3', 'entry', 'histN', 'histA', 'histS', 'flat')] +
                  [S('block', ops=pe_all('block') + ['eq:4', 'xq'], introspect=True), S('compl', ops=pe_all('compl') + ['eq:4', 'xq'], introspect=True),
-                  S('orthoA', introspect=True), S('orthoS', introspect=True), S('wide', introspect=True)],
+                  S('orthoA', introspect=True), S('orthoS', introspect=True), S('wide', introspect=True), S('hier4', introspect=True)],
         rule='all histories over start/stop/process_event/enqueue_event/execute_queued_events to closure (pending queue <= 2); '
              'every distinct canonical state is a quiescent point checked against the ledger; non-trivial executions ran a callback',
     ),
